@@ -62,6 +62,7 @@ def run_cbmc(files, function, unwind, defines, timeout, backends, extra=()):
                 txt = ''.join(bufs[be])
                 if 'VERIFICATION SUCCESSFUL' in txt: verdict, who, out = 'success', be, txt
                 elif 'VERIFICATION FAILED' in txt: verdict, who, out = 'failed', be, txt
+                elif 'CONVERSION ERROR' in txt or 'PARSING ERROR' in txt: verdict, who, out = 'error', be, txt
                 elif not out: out = txt
             else:
                 bufs[be].append(chunk)
@@ -97,7 +98,7 @@ BIN = {'add': ('(W)x + (W)y', '1', ''), 'sub': ('(W)x - (W)y', '1', ''), 'mul': 
        'div': ('(y < 0 ? -(W)x : (W)x)', '(y < 0 ? -(W)y : (W)y)', 'y != 0'), 'idiv': ('(W)x / (W)y', '1', 'y != 0'), 'rem': ('(W)x % (W)y', '1', 'y != 0'),
        'addmul': ('t0 + (W)x * (W)y', '1', ''), 'submul': ('t0 - (W)x * (W)y', '1', '')}
 UN = {'neg': ('-(W)x', '1'), 'abs': ('((W)x < 0 ? -(W)x : (W)x)', '1')}
-EXP = {'mul2exp': ('((W)x << e)', '1'), 'div2exp': ('(W)x', '((W)1 << e)')}
+EXP = {'mul2exp': ('SHL((W)x, e)', '1'), 'div2exp': ('(W)x', '((W)1 << e)')}
 XBIN = {'xadd': BIN['add'], 'xsub': BIN['sub'], 'xmul': BIN['mul'], 'xdiv': BIN['div']}
 XUN = {'xneg': ('-(W)x', '1'), 'xdiv2': ('(W)x', '2')}
 CONV = ['i8_i32', 'u8_i32', 'i8_u32', 'i16_i32', 'u16_i32', 'i32_i64', 'u32_i64', 'i32_u32', 'u32_i32', 'i64_u64', 'u64_i64']
@@ -145,11 +146,11 @@ def c11_harness(kind, op, suf):
     else:
         en, ed = EXP[op]
         body = ('%s to = nondet_%s(), x = nondet_%s(); unsigned e = nondet_uint(); unsigned dir = nondet_uint(); %s __CPROVER_assume(e <= EMAX);\n' % (ct, suf, suf, dirs) +
-                '  unsigned r = %s((char*)&to, (%s)x, e, dir);\n  W en = %s, ed = %s;\n  %s\n' % (k, ut, en, ed, judge))
+                '  g_e = e;\n  unsigned r = %s((char*)&to, (%s)x, e, dir);\n  W en = %s, ed = %s;\n  %s\n' % (k, ut, en, ed, judge))
         decl = 'unsigned int %s(char*, %s, unsigned int, unsigned int);\n' % (k, ut)
     decl += '%s nondet_%s(void);\n' % (ct, suf)
     wide = '__int128' if '64' in suf or (op in EXP and '32' in suf) else 'long'
-    muled = '((v) << e)' if op == 'div2exp' else '((v) * ed)' if op in ('div', 'xdiv') else '((v) << 1)' if op == 'xdiv2' else '(v)'
+    muled = 'SHL((v), g_e)' if op == 'div2exp' else '((v) * ed)' if op in ('div', 'xdiv') else 'SHL((v), 1)' if op == 'xdiv2' else '(v)'
     return k, h, '#define WTYPE %s\n#define MULED(v) %s\n#define EMAX %su\n#include "c11_judge.h"\n' % (wide, muled, '24' if ('8' in suf or '16' in suf) else '40') + decl + 'void %s(void) {\n  %s%s}\n' % (h, body, wit)
 
 
@@ -339,7 +340,9 @@ def main(pid, tier, seed, replay_path, spec):
     for v in violations:
         print('VIOLATION property=%s replay=%s' % (pid, v['replay']))
         print('  harness=%s inputs=%s failed=%s' % (v['harness'], v['inputs'], v['failed'][:3]))
-    nc = [r for r in results if r['verdict'] == 'unknown'] + not_covered
+    for r in results:
+        if r['verdict'] == 'error': r['reason'] = 'CBMC front-end error'
+    nc = [r for r in results if r['verdict'] in ('unknown', 'error')] + not_covered
     for r in nc:
         print('NOT-COVERED property=%s harness=%s (%s)' % (pid, r['harness'], r.get('reason', 'no back end answered within %ds' % cap)))
     for r in results:
